@@ -12,8 +12,10 @@ EXPLANATION = ('(D1) For all 2^32 day numbers at once the weekday returned by da
                '1970-01-01 a Thursday; the Monday-first variant used by format is congruent to days. (D2) day_of_year is the month offset of '
                'year_month_to_doy(y, m) plus d for the (y, m, d) that days_to_date returned for the same day; the month offsets are the prefix sums '
                'of the month lengths (C01-D4). (D3) weekday in [0,6], day of year in [1,366], ISO week in [1,53], no overflow or lossy cast except one '
-               'hand-discharged relational cast in days_to_wyear. Not decided: that the ISO week number is the right one (numerics of days_to_wyear), '
-               'quarter rendering (C11).')
+               'hand-discharged relational cast in days_to_wyear. (W) the ISO week formula of days_to_wyear for years >= 1, month case-split: its intermediate day of year is the calendar table offset + day - 1 '
+               '(+ the leap flag from March on), g - e is congruent to (y-1) + (y-1)/4 - (y-1)/100 + (y-1)/400 modulo 7 (the Monday-based weekday of 1 January), '
+               'd = (f + g - e) mod 7, n = f + 3 - d (the Thursday of the week), result n/7 + 1 for 0 <= n <= 364 + s and week 1 beyond (anchored on the named '
+               'intermediates a, b, c, s, e, f, g, d, n of that function). Not decided: the count of weeks of the previous year (n < 0 case), BC years, quarter rendering (C11).')
 META = {
     'technique': 'static analysis: MIR abstract interpretation with affine-modulo forms (weekday congruence), value identity at kernel call sites, interval ranges',
     'note': 'trusted: rustc MIR, vf/models.py, calendar kernels (C01); one hand-discharged cast in days_to_wyear (tables/hand_discharged.json)',
@@ -25,6 +27,8 @@ YMD = 'util::date::convert::year_month_to_doy'
 
 
 def check(ctx):
+    from ..isoweek import check_iso_week
+    check_iso_week(ctx, Numeric)
     N = Numeric(ctx)
     I = N.I
     # ---- D1: weekday congruence, both variants of the kernel
